@@ -773,6 +773,17 @@ impl PreferenceManager {
         return Ok( () );
     }
 
+    /// The kind of value the named preference currently holds: "boolean", "number", or "string".
+    /// None is returned if `name` is not a known preference.
+    pub fn pref_kind(&self, name: &str) -> Option<&'static str> {
+        let value = self.api_prefs.prefs.get(name).or_else(|| self.user_prefs.prefs.get(name))?;
+        return Some( match value {
+            Yaml::Boolean(_) => "boolean",
+            Yaml::Integer(_) | Yaml::Real(_) => "number",
+            _ => "string",
+        } );
+    }
+
     /// Set the number-valued preference.
     /// All number-valued preferences are stored with type `f64`.
     pub fn set_api_float_pref(&mut self, key: &str, value: f64) {
